@@ -175,11 +175,12 @@ def tag_protocol(ctx):
             if len(sides) != 1:
                 continue
             sent = 'sentinel:' + sides[0]
-            if any(isinstance(x, ast.BinOp) and isinstance(x.op, ast.Mod)
-                   for s_ in n.body for x in ast.walk(s_)):
-                pad_on = sent
-            elif len(n.body) == 1 and isinstance(n.body[0], ast.Pass):
+            if len(n.body) == 1 and isinstance(n.body[0], ast.Pass):
                 nothing_on = sent
+            elif any(isinstance(s_, (ast.Assign, ast.AugAssign))
+                     for s_ in n.body):
+                # the arm that changes the output buffer (pads)
+                pad_on = sent
     ok = meaning.get(0) == 'next-cell' and \
         (meaning.get(3) or '').startswith('format:') and \
         s1.startswith('sentinel:') and s2.startswith('sentinel:') and \
@@ -336,7 +337,12 @@ def line_end_guards(ctx, f):
                         f'with 14 - (column mod 14) blanks, i.e. a full zone '
                         f'when the column is already on a zone boundary',
                         f.file, z.lineno)
-    ctx.floor('zone padding expressions', len(zones), 1)
+    if not zones:
+        # written some other way (ljust, a helper, ...): the layout rule
+        # below decides the behaviour itself
+        ctx.observe('no `W - (len(buf) % W)` padding expression in '
+                    '_exec_print; zone behaviour is decided by '
+                    'plain-print-layout-by-item-sequence alone')
 
 
 def layout_by_items(ctx):
@@ -360,7 +366,7 @@ def layout_by_items(ctx):
     sim = vmsim.VmSim(repo)
     vmsim.install_primitives(sim)
     c = sim.cell
-    alphabet = ['ab', '', 'x' * 14, ',', ';']
+    alphabet = ['ab', '', 'x' * 14, 'y' * 17, ',', ';']
     f = repo.func('qvm.machine', 'TerminalDevice._exec_print')
     n = 0
     bad = None
